@@ -227,6 +227,9 @@ class PlanRun:
             return
         eng = self.eng
         key, rec, spec = ctxt["key"], ctxt["rec"], ctxt["spec"]
+        if getattr(self, "generate", False):
+            rec["generated_only"] = True  # never reaches the scheduler: not a job of this run for the monitors
+            return
         live = [p for p in eng.procs.values() if p.jobkey == key and not p.exited]
         job._xv_key = key
         job._xv_run = self.xp
@@ -254,7 +257,14 @@ class PlanRun:
         launcher = engb.make_launcher(eng, self.workdir)
         launcher.addListener(self.on_job_submitted)
         self._submitting = None
-        xp = experiment(self.workdir / "ws", run_spec.get("name", "xp"), launcher=launcher)
+        self.generate = run_spec.get("mode") == "generate"
+        if self.generate:
+            # a generate-only run: job files are written, nothing is scheduled, the index is not this run's business
+            from experimaestro.scheduler.workspace import RunMode
+
+            xp = experiment(self.workdir / "ws", run_spec.get("name", "xp"), launcher=launcher, run_mode=RunMode.GENERATE_ONLY)
+        else:
+            xp = experiment(self.workdir / "ws", run_spec.get("name", "xp"), launcher=launcher)
         self.xp = xp
         self.wait_future = None
         self.wait_outcome = None
